@@ -1,6 +1,57 @@
 import WhVerif.Util.Proto
+import WhVerif.Model.C17
 namespace WhVerif.Driver.C17
-open Lean WhVerif.Proto
-/-- ops of property C17 are named `c17.<name>`; return `none` for ops that are not ours -/
-def handle (_op : String) (_j : Json) : Option Json := none
+open Lean WhVerif.Proto WhVerif.C17
+open WhVerif.C10 (RV)
+
+def rv? (j : Json) : Option RV := do
+  match ← natList? j with
+  | [p, a, q] => some ⟨p, a, q⟩
+  | _ => none
+
+def read? (j : Json) : Option TRead := do
+  match ← asArr? j with
+  | [ps, hp, vs] => some ⟨← asInt? ps, ← asInt? hp, ← (← asArr? vs).mapM rv?⟩
+  | _ => none
+
+def phase? (j : Json) : Option (Option (Int × List Nat)) :=
+  match j with
+  | Json.null => some none
+  | _ => do
+    match ← asArr? j with
+    | [b, al] => some (some (← asInt? b, ← natList? al))
+    | _ => none
+
+def var? (j : Json) : Option VarInfo := do
+  match ← asArr? j with
+  | [p, gt, ph, snv] => some ⟨← asNat? p, ← natList? gt, ← phase? ph, ← asBool? snv⟩
+  | _ => none
+
+def errName : Err → String
+  | .keyError => "KeyError" | .zeroDivision => "ZeroDivisionError"
+
+def ofCons (c : Cons) : Json :=
+  Json.arr #[ofNat c.pos, ofInt c.component, match c.alleles with | some (a, b) => ofNatList [a, b] | none => Json.null]
+
+def handle (op : String) (j : Json) : Option Json :=
+  if op == "c17.run" then
+    match getBool? j "repaired", getBool? j "onlyIndels", getNat? j "gap", getNat? j "cut", getStr? j "ref",
+      (getList? j "vars").bind (·.mapM var?), (getList? j "reads").bind (·.mapM read?) with
+    | some rep, some oi, some gap, some cut, some ref, some vars, some reads =>
+      let votes := computeVotes vars [] reads
+      match C17.run rep ⟨oi, gap, cut⟩ ref.toList.toArray vars reads with
+      | .error e => some (Json.mkObj [("error", Json.str (errName e))])
+      | .ok cs =>
+        some (Json.mkObj [
+          ("cons", ofList ofCons cs),
+          ("votes", match votes with
+            | .ok vs => ofList (fun (e : Nat × Inner) => Json.arr #[ofNat e.1,
+                ofList (fun (x : (Int × Nat) × Nat) => Json.arr #[ofInt x.1.1, ofNat x.1.2, ofNat x.2]) e.2]) vs
+            | .error _ => Json.null),
+          ("out", ofList (fun (v : VarInfo) => Json.arr #[ofNat v.pos,
+            match phaseOut cs v.pos with
+            | some (ps, a, b) => Json.arr #[ofInt ps, ofNat a, ofNat b]
+            | none => Json.null]) vars)])
+    | _, _, _, _, _, _, _ => some badInput
+  else none
 end WhVerif.Driver.C17
